@@ -20,7 +20,7 @@ StrUpTo(S, n) == UNION {[1..k -> S] : k \in 0..n}
 
 \* ---- character-strings and opaque text
 CsOctets == IF Wide THEN {0, 9, 10, 32, 34, 40, 41, 46, 48, 59, 64, 92, 97, 127, 128, 200, 255}
-            ELSE {0, 32, 34, 92, 97, 127, 128, 255}
+            ELSE {0, 10, 32, 34, 92, 97, 127, 128, 255}
 CStrVals == StrUpTo(CsOctets, 2) \cup {Rep(255, 255), Rep(97, 255), <<195, 169>>, <<226, 130, 172, 34>>}
 CStrBase == <<97, 98>>
 CStrsVals == {<<c>> : c \in CStrVals} \cup {<<<<>>, <<97>>>>, <<<<97>>, <<>>, <<34>>>>, <<Rep(120, 255), Rep(0, 255)>>}
